@@ -1,6 +1,13 @@
 #!/bin/sh
-# loops until /verif/.work/seedloop.stop exists; runs seedtest for every delivered round-3 change not yet tested
-while [ ! -f /verif/.work/seedloop.stop ]; do
-  SEEDROOT=/tmp/seed3 sh /verif/check/seedbatch.sh $(cat /verif/.work/seedloop.props) > /verif/.work/seed-results/loop.log 2>&1
-  sleep 45
-done
+# usage: seedloop5.sh <root> <props...>
+root=$1; shift
+cd /verif
+for p in "$@"; do
+  for m in $root/out-$p/m*; do
+    [ -f "$m/patch.diff" ] || continue
+    n=$(basename $m)
+    out=/verif/.work/seed-results/$p-$n.json
+    [ -s "$out" ] && continue
+    echo "python3 /verif/check/seedtest.py $m $p > $out 2>/verif/.work/seed-results/$p-$n.err"
+  done
+done | xargs -P 3 -I{} sh -c "{}"
